@@ -340,12 +340,13 @@ Example tu_ex_run :
   map (option_map (fun t => (t_request_uri t, t_response_status_number t))) (c_txs (fst run)) = [Some (Some [47;117;112]%N, 101)] /\
   chk_C16 (obs_run tn_ex_cb tn_ex_cfg connp_new tu_ex_ops) = true.
 Proof. vm_compute. repeat split; reflexivity. Qed.
-(* the premise on the order of the operations is needed (listed finding http09-then-tunnel-error): junk glued to the Upgrade request is
-   taken for an HTTP/0.9 request; after the 101 answer the next request data call returns ERROR instead of TUNNEL *)
+(* a history outside the premise on the order of the operations (former listed finding http09-then-tunnel-error, fixed in /repo): junk glued to
+   the Upgrade request is taken for an HTTP/0.9 request; after the 101 answer the next request data call used to return ERROR; since the entry
+   guard of htp_connp_req_data lets tunnel mode through it returns TUNNEL *)
 Example tu_ex_http09_junk :
   map (fun r => r_rc r) (snd (cp_run tn_ex_cb tn_ex_cfg connp_new
      [OpOpen; OpReqData (tu_ex_qw ++ [65;22;1;65;10;10;128;10]%N); OpResData tu_ex_sw; OpReqData [65]%N])) =
-  [-1; c_HTP_STREAM_DATA; c_HTP_STREAM_TUNNEL; c_HTP_STREAM_ERROR].
+  [-1; c_HTP_STREAM_DATA; c_HTP_STREAM_TUNNEL; c_HTP_STREAM_TUNNEL].
 Proof. vm_compute. reflexivity. Qed.
 (* a 101 answer that announces a body is not a protocol switch for the library: the premise tu_101_ok fails *)
 Example tu_ex_101_with_cl :
